@@ -1,13 +1,13 @@
 package evsim
 
 import (
-	"sort"
 	"bytes"
 	"crypto/sha256"
 	"encoding/hex"
 	"fmt"
 	"math/big"
 	"regexp"
+	"sort"
 	"strings"
 
 	feemarkettypes "github.com/EscanBE/evermint/v12/x/feemarket/types"
@@ -98,7 +98,12 @@ func RunAlwaysOn(w *World, rec *BlockRecord, txs []*TxInfo) {
 		classes = append(classes, classify(w.R, t))
 		oracleC04(w.R, rec, t)
 		oracleC05(w.R, rec, t)
+		oracleC06Tx(w, rec, t)
+		oracleC15(w, rec, t)
 	}
+	w.R.At(rec.Height, -1)
+	oracleC06Block(w, rec)
+	oracleC09(w, rec, txs)
 	w.R.At(rec.Height, -1)
 	if len(classes) > 0 {
 		// distinct non-trivial case: the ordered outcome-class vector of a block that carries transactions
